@@ -10,7 +10,6 @@ use crate::jsonp::{self, J, PErr};
 use crate::util::*;
 use crate::val::*;
 use arrow_array::{Array, ArrayRef, RecordBatch};
-use arrow_buffer::i256;
 use arrow_json::writer::{JsonArray, LineDelimited};
 use arrow_json::{ReaderBuilder, StructMode, WriterBuilder};
 use arrow_schema::{DataType, Field, Fields, Schema, TimeUnit};
@@ -1372,6 +1371,3 @@ pub fn run(ctx: &Ctx, order_base: u64) -> Stats {
     st.count("order_span_json", n + gn);
     st
 }
-
-#[allow(dead_code)]
-fn _unused(_: i256) {}
